@@ -196,9 +196,22 @@ ADDED = {
     "C18": " Configuration with an injected internal error (once-only / closed-last also hold on that path).",
     "C19": " The real _rlcompleter.CodeInputter on the real Input machine with symbolic TAB text and final text: completions extend what was typed, an accepted entry sets exactly "
            "the typed code on the claimed nameplate, an edited claimed nameplate is refused.",
+    "C01": ' Honest runs include an EMPTY application message; schedule explorations end with an honest completion (the applications finish the session).',
+    "C03": ' After the free steps the applications complete the session honestly (enter the code, send the rest) and the oracle is applied again; payloads include the empty message and vary in length.',
+    "C05": " The destination must be named by the offer's basename; concrete name samples (Unicode normalisation forms, case, compatibility characters) run on the real posixpath.",
+    "C07": ' Variants: the first endpoint fails synchronously (pre-fired contender); an inbound connection negotiates before connect() is called; no attempt may stay pending once connect() has finished.',
+    "C17": ' Every explored run ends with stop() on every side that is not stopped yet: shutdown must complete from every state reached; one configuration lets any link die at any moment.',
+    "C20": ' Endpoint stubs fail synchronously for host names Twisted cannot IDNA-encode; connect() may only finish once no dialled attempt is pending.',
+    "C02__more": " Per-path validation re-runs sampled paths concretely and compares what the applications saw; injections enter through the real ws_message; label pairs whose concatenation equals an honest pair's are in the symbolic domains.",
+    "C06__more": ' Reader loops (receive_record() re-issued from inside its callback) are part of the read-mode schedules.',
+    "C09__more": ' Long sessions (20 messages) with connection losses at every point.',
+    "C12__more": ' The struct module seen by the code is a facade bound at import time (precompiled Struct objects and signed formats are modelled); every path and every counterexample replay has a wall-clock limit, a replay that does not return is a reproduced hang.',
+    "C14__more": ' Failed reconnect attempts (onClose without onOpen) are part of the loss model.',
+    "C18__more": ' Getter bursts: several get_message() calls outstanding at close.',
+    "C19__more": ' allocate_code() before and after the connection is up.',
 }
 for _k, _v in ADDED.items():
-    CHECKS[_k]["text"] = CHECKS[_k]["text"].rstrip() + _v
+    CHECKS[_k.split("__")[0]]["text"] = CHECKS[_k.split("__")[0]]["text"].rstrip() + _v
 
 NOT_YET = {}
 
